@@ -2354,3 +2354,148 @@ PROPERTY OtherDatabaseUntouched
 
 
 REGISTRY.update({'C16': c16})
+
+
+# ---------------------------------------------------------------------------
+# C10: handover to Django migrations (Handover.tla)
+
+def c10(tier, replay=None):
+    import random
+    from concurrent.futures import ThreadPoolExecutor
+    from .common import seed
+    from .engines import handover as H
+    from .tlc import run_tlc, require_ok, write_cfg
+    report = Report('C10', tier)
+    maxk, M = 2, 3
+    cfg = write_cfg('MC_Handover.cfg', '''
+SPECIFICATION Spec
+CONSTANTS
+  MaxK = %d
+  M = %d
+  EmitRecords = TRUE
+CONSTRAINT Constraint
+INVARIANT RecordedExactlyOnce
+INVARIANT MarkedNotExecuted
+INVARIANT RemainingExecutedInOrder
+INVARIANT PendingEvolutionsFirst
+INVARIANT SignatureListsRecorded
+INVARIANT SchemaComplete
+INVARIANT NoEvolutionSqlOnceOnMigrations
+INVARIANT RerunIsNoop
+''' % (maxk, M))
+    res = require_ok(run_tlc('Handover', cfg, workers=4, timeout=3000), 'Handover.tla')
+    report.add_tlc('Handover MaxK=%d M=%d (all start states, prefixes, companions)' % (maxk, M), res.stats())
+    by_cfg = {}
+    for r in res.records:
+        key = json_key([r['K'], r['S'], r['start'], sorted(r['companions'])], 0)
+        by_cfg.setdefault(key, {})[r['run']] = r
+    items = sorted(by_cfg.items())
+    rng = random.Random(seed() * 919 + 10)
+    rng.shuffle(items)
+    limit = 60 if tier == 'quick' else len(items)
+    # keep every (start kind, S) combination represented
+    items.sort(key=lambda kv: (kv[1][1]['start'][0], kv[1][1]['S']))
+    chosen = items[::max(1, len(items) // limit)][:limit] if len(items) > limit else items
+
+    def one(ikv):
+        i, (key, runs) = ikv
+        r1 = runs[1]
+        return H.replay({'K': r1['K'], 'S': r1['S'], 'start': r1['start'],
+                         'companions': r1['companions']}, idx=i, M=M)
+    with ThreadPoolExecutor(16) as ex:
+        observations = list(ex.map(one, enumerate(chosen)))
+    nontrivial = set()
+
+    def label_of(l):
+        return 'e%d' % l[1] if l[0] == 'e' else l[0]
+    for (key, runs), obs in zip(chosen, observations):
+        report.coverage['evaluations'] += 1
+        r1 = runs[1]
+        where = {'K': r1['K'], 'mark_applied_prefix': r1['S'], 'start': r1['start'],
+                 'companions': sorted(r1['companions']), 'driver': obs.get('driver')}
+        if obs['errors']:
+            report.notes.append('start state could not be built: %r %r' % (where, obs['errors'][:1]))
+            continue
+        if r1['start'][0] == 'evo' or r1['companions']:
+            nontrivial.add(key)
+        for runno in (1, 2):
+            exp = runs.get(runno)
+            o = obs['run%d' % runno]
+            report.coverage['traces_validated_against_impl'] += 1
+            detail = dict(where, run=runno, observed=o,
+                          expected={k: exp[k] for k in ('evoExecuted', 'migExecuted', 'migRecorded',
+                                                        'columns', 'sigApplied')} if exp else None)
+            fp = {'run': runno, 'start': r1['start'][0], 'driver': obs.get('driver') if runno == 1 else None}
+            if o['outcome'] != 'ok':
+                report.fail(dict(fp, **{'class': 'upgrade-failed'}), detail)
+                break
+            if exp is None:
+                continue
+            # the move itself carries no SQL: it is announced only along with other evolutions
+            exp_evo = [label_of(l) for l in exp['evoExecuted'] if l[0] != 'e_move']
+            o_evo = [l for l in o['evo_executed'] if l != 'e_move']
+            exp_mig = [H.mig_name(n) for n in exp['migExecuted']]
+            exp_rec = sorted(label_of(l) for l in exp['evoRecorded'])
+            if o['evo_recorded'] != exp_rec:
+                report.fail(dict(fp, **{'class': 'evolutions-recorded-differ',
+                                        'duplicates': len(o['evo_recorded']) != len(set(o['evo_recorded']))}),
+                            dict(detail, expected_recorded=exp_rec))
+            if o_evo != exp_evo:
+                report.fail(dict(fp, **{'class': 'evolutions-executed-differ',
+                                        'evolution_sql_after_handover': bool(o['evo_executed']) and not exp_evo}),
+                            detail)
+            if o['mig_executed'] != exp_mig:
+                marked = [H.mig_name(n) for n in range(1, r1['S'] + 1)]
+                report.fail(dict(fp, **{'class': 'migrations-executed-differ',
+                                        'marked_applied_was_executed': bool(set(o['mig_executed']) & set(marked))
+                                        and r1['start'][0] == 'evo',
+                                        'order_differs': sorted(o['mig_executed']) == sorted(exp_mig)}), detail)
+            rows = {H.mig_name(n + 1): c for n, c in enumerate(exp['migRecorded'])} \
+                if isinstance(exp['migRecorded'], list) else \
+                {H.mig_name(int(n)): c for n, c in exp['migRecorded'].items()}
+            rows = {k: v for k, v in rows.items() if v}
+            if o['mig_rows'] != rows:
+                report.fail(dict(fp, **{'class': 'migration-records-differ',
+                                        'duplicates': any(v > 1 for v in o['mig_rows'].values())}), detail)
+            if o['sig_method'] != 'migrations' or o['sig_applied'] != sorted(o['mig_rows']):
+                report.fail(dict(fp, **{'class': 'signature-does-not-list-recorded-migrations'}), detail)
+            exp_cols = sorted(['id'] + [('%s%d' % (c[0], c[1])) if c[0] != 'name' else 'name'
+                                        for c in exp['columns']])
+            if o['columns'] != exp_cols:
+                report.fail(dict(fp, **{'class': 'schema-differs'}), dict(detail, expected_columns=exp_cols))
+            ce = exp.get('companion') or {}
+            for a, co in (o.get('companion') or {}).items():
+                if a == 'blog':
+                    want = (list(ce.get('blogExecuted') or []), sorted(ce.get('blogRecorded') or []))
+                    have = (co['evo_executed'], co['evo_recorded'])
+                else:
+                    want = ([H.mig_name(n) for n in (ce.get('migExecuted') or [])],
+                            {H.mig_name(i + 1): c for i, c in enumerate(ce.get('migRecorded') or [])})
+                    have = (co['mig_executed'], co['mig_rows'])
+                if want != have:
+                    report.fail(dict(fp, **{'class': 'companion-app-treated-differently', 'app': a}),
+                                dict(detail, companion=a, want=want, have=have))
+            if runno == 2 and (o['statements'] or o['bookkeeping_writes'] or o['signals']
+                               or o.get('required') or o.get('diff_empty') is False):
+                report.fail(dict(fp, **{'class': 'further-upgrade-not-a-noop'}), detail)
+        report.sample({'config': where, 'run1': {k: obs['run1'][k] for k in ('evo_executed', 'mig_executed',
+                                                                              'mig_rows', 'sig_applied')}
+                       if 'run1' in obs else None})
+    report.coverage['distinct_nontrivial'] = len(nontrivial)
+    report.coverage['exhaustive'] = len(chosen) == len(items)
+    report.coverage['rule'] = (
+        'Handover.tla: shop has K<=%d evolutions, an optional evolution covering the migrations named in '
+        'mark_applied, then MoveToDjangoMigrations(mark_applied = first S of M=%d migrations); Init ranges over K, S, '
+        'the start state (fresh database, database after any number of the evolutions, database already handed over '
+        'when the chain was shorter) and the companion apps (evolution-only app with a pending evolution, '
+        'migration-only app with a pending migration); TLC checks RecordedExactlyOnce, MarkedNotExecuted, '
+        'RemainingExecutedInOrder, PendingEvolutionsFirst, SignatureListsRecorded, SchemaComplete, '
+        'NoEvolutionSqlOnceOnMigrations, RerunIsNoop. %d of %d configurations were built as real projects (evolution '
+        'modules and migration files on disk), upgraded through `evolve --execute`, the Evolver API or the replaced '
+        '`migrate` command, then upgraded again; applying_evolution / applying_migration signals, django_migrations '
+        'rows (with multiplicity), django_evolution rows, the table columns and the stored app signature are '
+        'compared with the specification for both runs.' % (maxk, M, len(chosen), len(items)))
+    return report.finish()
+
+
+REGISTRY.update({'C10': c10})
